@@ -20,6 +20,9 @@ type c04Case struct {
 	// values rotated by Shift, compared by bit pattern (valpass.go); only Type, C and Shift matter
 	ValPass bool `json:"val_pass,omitempty"`
 	Shift   int  `json:"shift,omitempty"`
+	// GCWindow: only the window Slice(S, S+L) of Alloc(C, P, P) is kept across garbage collections;
+	// allocations of the same shape made afterwards must not be reachable by appending through the window
+	GCWindow bool `json:"gc_window,omitempty"`
 }
 
 func c04Run(cs c04Case) []F {
@@ -30,6 +33,9 @@ func c04RunRaw(cs c04Case) (fs []F) {
 	t := typeByName(cs.Type)
 	if cs.ValPass {
 		return valAppendSample(t, cs.C, cs.Shift)
+	}
+	if cs.GCWindow {
+		return gcReplay(t, gcShape{cs.C, cs.P, cs.S, cs.S + cs.L}, true, "AppendSample")
 	}
 	fail := func(kind, format string, a ...any) {
 		fs = append(fs, core.Failf("AppendSample/"+kind, "%+v: %s", cs, fmt.Sprintf(format, a...)))
@@ -148,6 +154,9 @@ func init() {
 					}
 				}
 			}
+			gcWindowPass([]int{dyn.Int8, dyn.Int32, dyn.Float64, dyn.MyInt16ID()}, true, "AppendSample", func(t int, sh gcShape, fs []F) {
+				c.Check(c04Case{Type: tn(t), C: sh.C, P: sh.K, S: sh.S, L: sh.E - sh.S, GCWindow: true, N: 3}, true, fs)
+			})
 			var calls int64
 			for _, cs := range cases {
 				calls += int64(cs.N)
